@@ -35,6 +35,8 @@ RULE = ("(1) sweep: every grammar of the classes 2x2 (non-terminals A,B, termina
         "about half of the cases by a terminal or a non-nullable symbol in a prefix, plus unrelated productions, "
         "names drawn at random from a pool that mixes early and late letters; and the C01 generator with 25% "
         "left-recursive choices; up to 8 inputs each (sentences, mutated sentences, random strings).  "
+        "(2b) such grammars with a parser built WITH synonyms: pattern groups of the tokenizer are named like "
+        "non-terminals of the grammar and renamed to the terminals' names (same token names, same verdict).  "
         "(3) histories: all constructor calls of a case run in ONE process, one after another.  In the sweep the "
         "productions object of a grammar is, depending on its index, a new dict (7/16), the SAME dict object as the "
         "grammar constructed before it, emptied and refilled (4/16), the same dict and the same list objects edited by "
@@ -390,6 +392,23 @@ def _full_case(rng, g, n_inputs):
     return {"k": "full", "g": g, "inputs": gen_inputs(rng, g, n_inputs)}
 
 
+def _syn_case(rng, n_inputs):
+    """a full case whose parser is built WITH synonyms: pattern groups of the tokenizer carry the names of non-terminals of
+    the grammar and are renamed to the terminals' names (g["syn"] = [[group, terminal], ...]).  The token names, hence the
+    grammar the constructor has to judge, are exactly those of the plain case: a pattern-group name that `synonyms` renames
+    is not a token name, a symbol of the grammar may carry it (and may lie on a left-recursive cycle)."""
+    r = rng.random()
+    g = gen_hidden(rng) if r < 0.5 else L.gen_grammar(rng, allow_leftrec=0.25 if r < 0.75 else 0.6)
+    g = dict(g)
+    nts = [nt for nt, _ in g["prods"]]
+    rng.shuffle(nts)
+    terms = list(g["terms"])
+    rng.shuffle(terms)
+    k = min(len(nts), len(terms)) if rng.random() < 0.7 else rng.randint(1, min(len(nts), len(terms)))
+    g["syn"] = [[nt, t] for nt, t in zip(nts[:k], terms[:k])]
+    return _full_case(rng, g, n_inputs)
+
+
 def gen_cases(rng, tier):
     big = tier == "thorough"
     cases = []
@@ -408,6 +427,9 @@ def gen_cases(rng, tier):
         cases.append(_full_case(rng, gen_hidden(rng), 8))
     for _ in range(2000 if big else 150):
         cases.append(_full_case(rng, L.gen_grammar(rng, allow_leftrec=0.25), 8))
+    # (2b) parsers built with synonyms: non-terminals named like renamed pattern groups of the tokenizer
+    for _ in range(1500 if big else 120):
+        cases.append(_syn_case(rng, 5))
     # (3) histories of constructor calls in one process
     for _ in range(800 if big else 150):
         cases.append(gen_history(rng))
@@ -548,10 +570,20 @@ class _Objects:
         return self.pd
 
 
-def _ctor_pd(llparser, terms, pd, start, smart):
+def _syn_tokenizer(terms, syn):
+    """the tokenizer of L.tokenizer_str with the pattern GROUP of some terminals named differently (like non-terminals of
+    the grammar) and renamed back to the terminal's name by `synonyms`: the token names are `terms` all the same"""
+    group = {t: grp for grp, t in syn}
+    return "|".join([r"(?P<SPACE>\s+)"] + [f"(?P<{group.get(t, t)}>{t}[0-9]*)" for t in terms])
+
+
+def _ctor_pd(llparser, terms, pd, start, smart, syn=None):
     signal.setitimer(signal.ITIMER_REAL, CTOR_BUDGET)
     try:
         try:
+            if syn:
+                return llparser.LLParser(_syn_tokenizer(terms, syn), synonyms={grp: t for grp, t in syn}, productions=pd,
+                                         start_symbol_name=start, smart_factorization=smart), None
             return llparser.LLParser(L.tokenizer_str(terms), productions=pd, start_symbol_name=start,
                                      smart_factorization=smart), None
         finally:
@@ -562,8 +594,8 @@ def _ctor_pd(llparser, terms, pd, start, smart):
         return None, SX.exc_name(e)
 
 
-def _ctor(llparser, terms, prods, start, smart):
-    return _ctor_pd(llparser, terms, _mk_pd(prods), start, smart)
+def _ctor(llparser, terms, prods, start, smart, syn=None):
+    return _ctor_pd(llparser, terms, _mk_pd(prods), start, smart, syn)
 
 
 def sweep_mode(idx, pos=0):
@@ -664,7 +696,7 @@ def impl_run(case):
         return {"out": "".join(out), "ref": "".join(ref), "hangs": hangs, "parsed": n_parsed, "trees": n_trees,
                 "reused": objs.reused}
     g = case["g"]
-    p, err = _ctor(llparser, g["terms"], g["prods"], g["start"], g["smart"])
+    p, err = _ctor(llparser, g["terms"], g["prods"], g["start"], g["smart"], g.get("syn"))
     if p is None:
         return {"ctor": ["err", err]}
     res = {"ctor": ["ok"], "amb": bool(p.is_ambiguous()), "res": []}
@@ -804,6 +836,8 @@ def oracle(case, obs):
     prods = _prods_dict(g["prods"])
     rec = L.ref_left_recursive(prods)
     desc = f"productions {g['prods']} start {g['start']} smart={g['smart']}"
+    if g.get("syn"):
+        desc += f" (parser built with synonyms {dict(map(tuple, g['syn']))}: pattern groups named like symbols of the grammar)"
     if obs["ctor"][0] == "ok":
         STATS["full_accepted"] += 1
         if rec:
@@ -876,7 +910,7 @@ def kind(case):
         return f"hist:flips-on-related-object={min(flips, 3)}{'+' if flips > 3 else ''}"
     prods = _prods_dict(case["g"]["prods"])
     rec = L.ref_left_recursive(prods)
-    return f"full:leftrec={int(rec)} hidden={int(rec and ref_hidden_only(prods))} nullable={int(bool(L.ref_nullable(prods)))}"
+    return f"full{'+syn' if case['g'].get('syn') else ''}:leftrec={int(rec)} hidden={int(rec and ref_hidden_only(prods))} nullable={int(bool(L.ref_nullable(prods)))}"
 
 
 def nontrivial(case, obs):
